@@ -705,6 +705,15 @@ class FileTemplate:
         if os.path.isabs(path):
             path = os.path.relpath(path, start="/")
 
+        # The result is used as a trusted path relative to the datastore root,
+        # so it must not climb out of that root (a run or collection name is
+        # inserted with its "/" preserved and may contain "..").
+        if path == os.pardir or path.startswith(os.pardir + os.sep):
+            raise ValueError(
+                f"Template '{self.template}' applied to {ref} results in path '{path}' "
+                "that is outside the datastore root."
+            )
+
         return path
 
     def validateTemplate(self, entity: DatasetRef | DatasetType | StorageClass | None) -> None:
